@@ -238,6 +238,26 @@ func runC16(p *core.Prog, r *core.Report) {
 			core.G("cache-writable", core.IsFalse, wcT+".readOnly"),
 		}, Effect: core.CallTo(wcT+".flushSingle", wcT+".flushBatch")})
 	}
+	// ---------------- R5 the read gate
+	r5 := r.Rule("C16.R5", "reads of the write-cache are gated by the counters' address table: an address leaves that table only in cache.delete after the cached file was removed, and the table is rebuilt only at initialisation", 1)
+	allowedDel := map[string]string{wcT + ".delete": "the cached file was removed (flush completed or object deleted)"}
+	allowedReset := map[string]string{wcT + ".initCounters": "start-up recount from the files actually present"}
+	nGate := 0
+	for _, s := range core.CallSites(p.FuncsIn("pkg/local_object_storage/writecache"), func(s core.Site) bool {
+		return s.Name == "(*pkg/local_object_storage/writecache.counters).Delete" || s.Name == "(*pkg/local_object_storage/writecache.counters).Reset"
+	}) {
+		nGate++
+		o := core.FuncName(core.Outer(s.Fn))
+		tbl := allowedDel
+		if strings.HasSuffix(s.Name, ".Reset") {
+			tbl = allowedReset
+		}
+		why, ok := tbl[o]
+		r5.Check(ok, o+"#"+s.Name, p.InstrPos(s.Call), "tabled: "+why, o+" removes an address from the counters although it is not the tabled remover: if the address was already cached (a repeated put), the acknowledged copy's file stays in the cache but becomes invisible to reads (HasAddress gate) and to the flush scheduler")
+	}
+	if nGate == 0 {
+		r.Fatalf("C16.R5: no counters.Delete / Reset call found in the write-cache")
+	}
 }
 
 func runC17(p *core.Prog, r *core.Report) {
@@ -290,8 +310,27 @@ func runC17(p *core.Prog, r *core.Report) {
 	}
 	// R3
 	r3 := r.Rule("C17.R3", "cache.put adds to the counters only after FSTree.Put returned nil; cache.delete removes from them only after FSTree.Delete returned nil", 2)
+	// "adds to the counters" = calls any method of counters that assigns into objMap (Add today; whatever it is called tomorrow)
+	addsEntry := func(_ *core.Prog, in ssa.Instruction) (string, bool) {
+		c, ok := in.(ssa.CallInstruction)
+		if !ok {
+			return "", false
+		}
+		cal := core.StaticCallee(c)
+		if cal == nil || cal.Blocks == nil || !strings.HasPrefix(core.FuncName(cal), "(*pkg/local_object_storage/writecache.counters).") {
+			return "", false
+		}
+		for _, b := range cal.Blocks {
+			for _, i2 := range b.Instrs {
+				if _, isMU := i2.(*ssa.MapUpdate); isMU {
+					return core.FuncName(cal), true
+				}
+			}
+		}
+		return "", false
+	}
 	core.CheckEffects(p, r3, core.EffectRule{Fn: wcT + ".put", Min: 1, Guards: []core.Guard{core.G("file-written", core.ErrNil, "(*pkg/local_object_storage/blobstor/fstree.FSTree).Put")},
-		Effect: core.CallTo("(*pkg/local_object_storage/writecache.counters).Add")})
+		Effect: addsEntry})
 	core.CheckEffects(p, r3, core.EffectRule{Fn: wcT + ".delete", Min: 1, Guards: []core.Guard{core.G("file-removed", core.ErrNil, "(*pkg/local_object_storage/blobstor/fstree.FSTree).Delete")},
 		Effect: core.CallTo("(*pkg/local_object_storage/writecache.counters).Delete")})
 	// and the other direction: a successful FSTree.Put is always followed by counters.Add
